@@ -385,6 +385,8 @@ func LoadingProperty(impl UniImpl) Property {
 			case "src":
 				prog.Pkgs = append(prog.Pkgs, &ProgPkg{Path: Unhex(f[2]), Name: Unhex(f[3]), File: Unhex(f[4]), Imports: UnhexList(f[5]), Source: Unhex(f[6])})
 				prog.Module = ModuleOfPath(prog.Pkgs[0].Path)
+			case "testfiles":
+				prog.TestFiles = true
 			case "srcx":
 				for _, p := range prog.Pkgs {
 					if p.Path == Unhex(f[2]) {
@@ -504,6 +506,14 @@ func LoadingProperty(impl UniImpl) Property {
 			}
 			for i := 0; i < n; i++ {
 				prog := GenProgram(r, ProgOpts{V2: impl.V2, MaxPkgs: 5})
+				if !impl.V2 && i%3 == 1 {
+					// the rarely used option of the v1 loader: in-package test files belong to their packages – of every
+					// package, whether it is first met as a dependency or requested
+					prog.TestFiles = true
+					for pi, p := range prog.Pkgs {
+						p.Extra = map[string]string{"zz_extra_test.go": fmt.Sprintf("package %s\n\n// OnlyInTest%d is declared in a test file.\ntype OnlyInTest%d struct {\n\tN int\n}\n", p.Name, pi, pi)}
+					}
+				}
 				chk, err := prog.Check()
 				if err != nil {
 					c.Feature("generator-discarded", 1)
@@ -538,6 +548,14 @@ func LoadingProperty(impl UniImpl) Property {
 				for _, p := range prog.Pkgs {
 					ls = append(ls, Line("uni", "src", Hex(p.Path), Hex(p.Name), Hex(p.File), HexList(p.Imports), Hex(p.Source)))
 				}
+				if prog.TestFiles {
+					ls = append(ls, Line("uni", "testfiles"))
+					for _, p := range prog.Pkgs {
+						for _, fn := range SortedKeys(p.Extra) {
+							ls = append(ls, Line("uni", "srcx", Hex(p.Path), Hex(fn), Hex(p.Extra[fn])))
+						}
+					}
+				}
 				ls = append(ls, facts...)
 				ls = append(ls, Line("uni", "hyp"))
 				ls = append(ls, Line("uni", "load", HexList(initial)))
@@ -546,6 +564,9 @@ func LoadingProperty(impl UniImpl) Property {
 				}
 				ls = append(ls, Line("uni", "inputs"), Line("uni", "dump"))
 				feats := []string{fmt.Sprintf("pkgs:%d", len(prog.Pkgs)), fmt.Sprintf("requested:%d", len(req)), fmt.Sprintf("steps:%d", len(steps))}
+				if prog.TestFiles {
+					feats = append(feats, "include-test-files")
+				}
 				if len(req) < len(prog.Pkgs) {
 					feats = append(feats, "has-dependency-only-package")
 				}
